@@ -183,8 +183,9 @@ func c11first(p *Prog, r *Report) {
 	}
 }
 
-func c11replay(p *Prog, r *Report) {
-	const rule = "C11.replay"
+func c11replay(p *Prog, r *Report) { replayRule(p, r, "C11.replay") }
+
+func replayRule(p *Prog, r *Report, rule string) {
 	r.Rule(rule, 4, "Bootstrap: maintenance mode on before the first insert, restored by defer; events from dbTopologicalEvents(index*batch, batch) fed in slice order to InsertEventAndRunConsensus; loop ends on a short batch; dbTopologicalEvents reads topologicalEventKey(t) for t ascending by 1")
 	fn := p.Func(HG, "Hashgraph", "Bootstrap")
 	if fn == nil {
